@@ -19,3 +19,10 @@ func TestPath(t *testing.T) {
 	a := New(t, c)
 	graph.RunPath(t, a, a.W.Ctx)
 }
+
+func TestWalks(t *testing.T) {
+	var c Consts
+	graph.Const(&c)
+	a := New(t, c)
+	graph.RunWalks(t, a, a.W.Ctx, a.W.DumpHash)
+}
